@@ -231,6 +231,31 @@ impl CanonicalAssets {
         self.iter().all(|(x, amount)| x.is_naked() || *amount == 0)
     }
 
+    /// Class-wise sum; `None` when an amount does not fit the integer type.
+    pub fn checked_add(self, other: Self) -> Option<Self> {
+        let mut aggregated = self.0;
+
+        for (key, value) in other.0 {
+            let entry = aggregated.entry(key).or_default();
+            *entry = entry.checked_add(value)?;
+        }
+
+        aggregated.retain(|_, &mut value| value != 0);
+
+        Some(Self(aggregated))
+    }
+
+    /// Class-wise negation; `None` when an amount does not fit the integer type.
+    pub fn checked_neg(self) -> Option<Self> {
+        let mut negated = self.0;
+
+        for (_, value) in negated.iter_mut() {
+            *value = value.checked_neg()?;
+        }
+
+        Some(Self(negated))
+    }
+
     pub fn as_homogenous_asset(&self) -> Option<(AssetClass, i128)> {
         if self.0.len() != 1 {
             return None;
